@@ -241,6 +241,9 @@ def cond_facts(c, m):
                     eq_t.append(("nonnul", k[0], k[1]))
                     if (b.sval if b.ty != "i8" else b.uval) == 10:
                         eq_t.append(("isnl",))
+                        # the text is never written: the outcome of this test holds for every later test of the same byte
+                        eq_t.append(("nlat", k[0], k[1]))
+                        eq_f.append(("notnl", k[0], k[1]))
                 else:
                     eq_f.append(("nonnul", k[0], k[1]))
                     if k[1] == 0:
@@ -343,7 +346,7 @@ class Cursor:
                     for pv in [f for f in S if f[0] == "pval"]:
                         r, o = pv[1], pv[2]
                         for f in list(S):
-                            if f[0] in ("instr", "nonnul") and f[1] == r:
+                            if f[0] in ("instr", "nonnul", "nlat", "notnl") and f[1] == r:
                                 S.add((f[0], i.name, f[2] - o))
                             if o == 0 and f[0] in ("src", "chr", "nnp", "null") and f[1] == r:
                                 S.add((f[0], i.name))
@@ -464,6 +467,9 @@ class Cursor:
                 # an edge that needs a pointer to be NULL and non-NULL at once is infeasible
                 if any(f[0] == "null" and ("nnp", f[1]) in st for f in st):
                     continue
+                # ... or a byte to be a newline and not a newline
+                if any(f[0] == "nlat" and ("notnl", f[1], f[2]) in st for f in st):
+                    continue
                 out.setdefault(succ, []).append(st)
         else:
             for s in (t.succs or []):
@@ -508,7 +514,7 @@ class Cursor:
                         S2.add(("null", i.name))
                     continue
                 for f in S:
-                    if f[0] in ("instr", "nonnul") and f[1] == r:
+                    if f[0] in ("instr", "nonnul", "nlat", "notnl") and f[1] == r:
                         S2.add((f[0], i.name, f[2] - o))
                     if o == 0 and f[0] in ("src", "chr", "nnp", "null") and f[1] == r:
                         S2.add((f[0], i.name))
@@ -970,12 +976,20 @@ def analyse_flat_dumper(chk, m, fn, szarg, parg):
             if e.kind == "call" and isinstance(e.callee, str) and not e.callee.startswith("llvm."):
                 if e.callee == "fprintf":
                     s_ = fmt_string(m, e.args[1])
-                    u.append(("pair", e) if s_ == "%c%c" else ("nl", e) if s_ == "\n" else ("other", e))
+                    u.append(("pair", e, (e.args[2], e.args[3])) if s_ == "%c%c" and len(e.args) == 4 else ("nl", e, None) if s_ == "\n" else ("other", e, None))
+                elif e.callee in ("fputc", "putc", "fputc_unlocked", "putc_unlocked") and len(e.args) == 2:
+                    c_ = strip_casts(e.args[0])
+                    if c_[0] == "c":
+                        u.append(("nl", e, None) if c_[2] & 0xff == 10 else ("other", e, None))
+                    elif u and u[-1][0] == "char":
+                        u[-1] = ("pair", u[-1][1], (u[-1][2], e.args[0]))      # two single characters in a row: one pair
+                    else:
+                        u.append(("char", e, e.args[0]))
                 elif e.callee in paths.pure_functions(m):
                     continue
                 else:
-                    u.append(("other", e))
-        return u
+                    u.append(("other", e, None))
+        return [(k if k != "char" else "other", e, x) for k, e, x in u]
     if out_units(entry[0]) or any(out_units(p) for p in exits):
         return False
     B = BDD()
@@ -1008,7 +1022,7 @@ def analyse_flat_dumper(chk, m, fn, szarg, parg):
         cover = 0
         for p in body:
             u = out_units(p)
-            kinds = [k for k, e in u]
+            kinds = [k for k, e, x in u]
             pid = "%s segment %s" % (name, "->".join(b.lstrip("%") for b in p.blocks))[:140]
             if kinds not in (["pair"], ["pair", "nl"]):
                 chk.ob("H4.flat-loop", pid, False, "an iteration prints %s: exactly one pair, optionally followed by a newline, is expected" % kinds,
@@ -1016,7 +1030,8 @@ def analyse_flat_dumper(chk, m, fn, szarg, parg):
                 return True
             # the pair printed is byte p[i]
             e = u[0][1]
-            lds = set(x for arg in (e.args[2], e.args[3]) for x in paths.subexprs(arg) if x[0] == "ld" and ptr_parts(x[1])[0][0] != "g")
+            hi_x, lo_x = u[0][2]
+            lds = set(x for arg in (hi_x, lo_x) for x in paths.subexprs(arg) if x[0] == "ld" and ptr_parts(x[1])[0][0] != "g")
             want_ptr = paths.mkptr(("arg", parg), 0, ((iv, 1),))
             okb = bool(lds) and all(x[1] == want_ptr and x[2] == 1 for x in lds)
             digits_ok = okb
@@ -1025,7 +1040,7 @@ def analyse_flat_dumper(chk, m, fn, szarg, parg):
                 for v in range(256):
                     env = paths.LazyEnv(m, {x: v for x in lds})
                     try:
-                        a_, b_ = paths.eval_concrete(e.args[2], env) & 0xff, paths.eval_concrete(e.args[3], env) & 0xff
+                        a_, b_ = paths.eval_concrete(hi_x, env) & 0xff, paths.eval_concrete(lo_x, env) & 0xff
                     except paths.NoValue:
                         digits_ok = None
                         break
